@@ -25,6 +25,7 @@ Theorem C13_refines_stream : forall s ops routs rs fuel,
   exists st', run_new fuel (file_of s) ops (init_state (file_of s)) = Some (routs, st') /\
               (if rclosed rs then mode st' = MClosed else pos st' = rpos rs).
 Proof. exact refines_stream. Qed.
+Print Assumptions C13_refines_stream.
 
 (* Writing any chunk sequence (with tell() anywhere in between) at any level and closing: every
    write returns the chunk length, tell the running total, and the bytes handed to the underlying
@@ -40,3 +41,4 @@ Theorem C13_write : forall (C : Type) (compress : C -> bytes -> C * bytes) (flus
       (ev_results 0 evs ++ [VNone], mkW C MClosed (len (concat (ev_chunks evs))) cf file) /\
     inflate file = Some (concat (ev_chunks evs)).
 Proof. exact write_stream_decodes. Qed.
+Print Assumptions C13_write.
